@@ -2046,7 +2046,9 @@ class Builder:
                     # Otherwise: free the qubits.
                     if not params.sequential:
                         for q in qubits:
-                            q.free()
+                            # NOTE only add the instruction: the qubit handles are
+                            # still valid after the loop (`q.free()` invalidates them)
+                            self._build_cmds_qfree(qubit_id=q.qubit_id)
 
                 loop.set_cleanup_code(cleanup)
 
@@ -2086,7 +2088,9 @@ class Builder:
                     # Otherwise: free the qubits.
                     if not params.sequential:
                         for q in qubits:
-                            q.free()
+                            # NOTE only add the instruction: the qubit handles are
+                            # still valid after the loop (`q.free()` invalidates them)
+                            self._build_cmds_qfree(qubit_id=q.qubit_id)
 
                 loop.set_cleanup_code(cleanup)
 
